@@ -131,7 +131,7 @@ REQUIRED_IMPL_CLASSES = [
     "readd:object-removed,old-bucket-was-split", "add:same-public-key-as-stored-node",
     "evicted:bad", "evicted:slow", "full-bucket:no-eviction",
     "closest-walk:whole-table-needed", "closest-walk:own-bucket-suffices", "closest-walk:stops-at-an-inner-level",
-    "closest-exclude:stored-object-itself", "closest-exclude:fresh-object-with-that-id", "closest-k:default",
+    "closest-boundary-k:with-exclusion-in-own-bucket", "closest-exclude:stored-object-itself", "closest-exclude:fresh-object-with-that-id", "closest-k:default",
     "refresh-class:one", "refresh-class:few", "refresh-class:all", "refresh-class:none",
     "genid-pipeline-vs-cpython:overflow", "genid-pipeline-vs-cpython:in-range", "real-node-id:ipv4", "real-node-id:ipv6",
     "community-find:answered,neighbourhood-mixed-good-and-unknown", "community-answer:from-another-ip", "community-answer:from-the-asked-address", "two-threads:worker-waited-at-the-lock",
@@ -979,6 +979,17 @@ def gen_scenario(ctx: Ctx, rng, n_ops: int, profile: str):
             ctx.count("refresh-class:none")
             do(("refresh", (1 << 64) - 1, rng.getrandbits(160), False))
             ctx.count("refresh-class:all")
+            # boundary k: exactly / just below / just above the number of live nodes in the target's own bucket, with and without
+            # an excluded node taken from that bucket (where the "enough candidates" test and the exclusion meet)
+            stored_now = im.all_nodes()
+            for _ in range(2 if stored_now else 0):
+                tn = rng.choice(stored_now)
+                tb_ = im.rt.get_bucket(tn.id)
+                mates = [x for x in tb_.nodes.values() if x.failed < DEAD_AFTER]
+                for k in sorted({max(1, len(mates) - 1), max(1, len(mates)), len(mates) + 1}):
+                    ex = int.from_bytes(rng.choice(mates).id, "big") if mates and rng.random() < 0.7 else None
+                    do(("closest", int.from_bytes(tn.id, "big"), k, ex, rng.random() < 0.5))
+                    ctx.count("closest-boundary-k:" + ("with-exclusion-in-own-bucket" if ex is not None else "no-exclusion"))
             # queries that start at the deepest bucket (target = own id and its neighbours) and have to climb
             for k, t in ((20, me), (20, me ^ 1), (12, me ^ 3), (len(im.all_nodes()) or 1, me ^ 5)):
                 do(("closest", t, k, None))
@@ -986,9 +997,9 @@ def gen_scenario(ctx: Ctx, rng, n_ops: int, profile: str):
     return im, me, m, ops, lines, replies
 
 
-SHRINK_RUNS = 60          # candidate re-executions per shrink
-SHRINK_OP_BUDGET = 12000  # executed ops per shrink (closest_nodes counts 30: the real walk is slow on deep tries)
-SHRINKS_PER_RUN = 3       # later failures are reported unshrunk (cut at the failing op)
+SHRINK_RUNS = 40          # candidate re-executions per shrink
+SHRINK_OP_BUDGET = 5000  # executed ops per shrink (closest_nodes counts 30: the real walk is slow on deep tries)
+SHRINKS_PER_RUN = 2       # later failures are reported unshrunk (cut at the failing op)
 
 
 def _cost(ops):
@@ -1497,7 +1508,8 @@ def deep_walk_scenarios(ctx: Ctx, n: int, use_model=True):
         for t in rng.sample(deep, rng.randrange(0, 4)):      # some of the deep nodes die afterwards (they stay stored)
             ops.append(("set", me ^ t, 2, rng.choice(RTTS), rng.choice([None, 1, 3])))
         ops.append(("dump",))
-        for t in (me, me ^ 1, me ^ rng.choice(deep), me ^ (1 << rng.choice(shallow_bits))):
+        for t in ((me, me ^ 1, me ^ rng.choice(deep), me ^ (1 << rng.choice(shallow_bits))) if ctx.thorough() or ctx.searching
+                  else (me, me ^ rng.choice(deep))):
             for k in {20, total, rng.randrange(1, 20)}:
                 ops.append(("closest", t, k, rng.choice([None, None, me ^ rng.choice(deep)]), rng.random() < 0.5))
         im, lines, replies = run_ops(me, None, ops)
@@ -1599,7 +1611,7 @@ def bucket_direct(ctx: Ctx, n: int, use_model=True):
             ident = int((head + bits(rng.getrandbits(W), W))[:W], 2)
             if i and rng.random() < 0.15 and b.nodes:
                 ident = int.from_bytes(rng.choice(list(b.nodes)), "big")
-            nd = node_cls()(1000 * s + i, ident, 1 + i)
+            nd = node_cls()(1000 * s + i, ident, 1 + i, key_index=i)
             nd.failed = rng.choice([0, 0, 1, 2])
             rtt = rng.choice(RTTS)
             nd.rtt = rtt / float(UNIT)
@@ -2078,9 +2090,9 @@ def run(ctx: Ctx):
     bucket_direct(ctx, ctx.scale(60, 600))
     real_node_ids(ctx)
     refresh_two_tables(ctx, ctx.scale(6, 60))
-    deep_walk_scenarios(ctx, ctx.scale(2, 20))
-    routing_scenarios(ctx, ctx.scale(24, 170), [60, 150, 150, 300, 400, 700])
-    routing_scenarios(ctx, ctx.scale(1, 6), [2000, 2600])
+    deep_walk_scenarios(ctx, ctx.scale(1, 20))
+    routing_scenarios(ctx, ctx.scale(12, 170), [60, 150, 150, 300, 400, 700] if ctx.thorough() else [60, 150, 150, 300, 400])
+    routing_scenarios(ctx, ctx.scale(1, 6), [2000, 2600] if ctx.thorough() else [2000])
     if ctx.model_ok and not ctx.failures and not ctx.disagreements:
         require_coverage(ctx)
 
